@@ -1648,6 +1648,22 @@ fn log2_subs(ck: &mut Check) {
             }
         }
     }
+    // exact powers of two and their neighbours, up to exponents that f32 cannot hold exactly
+    // (2^24 < n: the bounds must still enclose n although n itself is not an f32)
+    let n_pow = if th { 4_000 } else { 300 };
+    for i in 0..n_pow {
+        let n: u64 = match i % 6 {
+            0 => 64 * (1 + r.below(64)) + r.below(3) - 1,        // around word boundaries
+            1 => (1u64 << (4 + r.below(19))) + r.below(3) - 1,   // 2^j - 1, 2^j, 2^j + 1
+            2 => 129 + r.below(100_000),
+            3 => (1u64 << 24) + 1 + 2 * r.below(1 << 22),        // odd, above 2^24: not an f32
+            4 => (1u64 << 25) + 1 + r.below(1 << 24),
+            _ => (1u64 << (24 + r.below(3))) + [1u64, 2, 3, 5, 7][r.below(5) as usize],
+        };
+        let d: i64 = if n <= 1 << 20 { r.below(3) as i64 - 1 } else { 0 };
+        let x = if d == 0 { X::Sci(Sci::new(BigInt::one(), n as i64, 2)) } else { X::Int((BigInt::one() << n as usize) + d) };
+        lines.push((format!("biglog2 p {n} {d}"), x, if n > 1 << 24 { "log2:UBig power of two, exponent above 2^24" } else if d == 0 { "log2:UBig power of two" } else { "log2:UBig power of two ± 1" }));
+    }
     let exhaustive_types = ["u8", "i8", "u16", "i16"];
     let mut all_lines: Vec<String> = lines.iter().map(|l| l.0.clone()).collect();
     for t in exhaustive_types {
@@ -1830,6 +1846,73 @@ fn main() {
             })
         },
         gcd_big,
+    );
+    // chosen partial quotients in front of 300+-word tails: (p, q) <- (k·p + q, p) for a list of
+    // quotients k mixing small ones (mostly 3) with quotients just below / around the cofactor limits
+    // of the double-word guess (2^58..2^64, 2^64 + small) and multi-word ones — the exactness tests of
+    // lehmer_guess_dword only bind for "huge, small, small, huge, multi-word" shapes. Lean runner:
+    // gcd and gcd_ext of the magnitudes only (the call forms are covered by the other gcd subs).
+    ck.sub(
+        "gcd_lehmer_dword_quotients",
+        (8_000, 400_000),
+        || {
+            (300usize..=312, 0usize..6, any::<u64>(), 0u8..8, 0usize..3).prop_map(|(lp, gap, seed, shape, pre)| {
+                let mut r = gen::SplitMix(seed ^ 0x1e4e);
+                let mut p = Nat(gen::expand(lp, 1, seed)).big();
+                let mut q = Nat(gen::expand(lp - gap, 1, seed ^ 0x55)).big();
+                if p < q {
+                    std::mem::swap(&mut p, &mut q);
+                }
+                // quotient kinds: H = 58..64 bits, h = 61..63 bits, W = 2^64 + small, M = 2..3 words, s = small
+                let mut quot = |r: &mut gen::SplitMix, kind: char| -> BigUint {
+                    match kind {
+                        'H' => BigUint::from(r.next() >> r.below(7)).max(BigUint::one()),
+                        'h' => BigUint::from((r.next() | 1 << 63) >> (1 + r.below(3))),
+                        'W' => (BigUint::one() << 64usize) + BigUint::from(r.below(1 << 20)),
+                        'M' => BigUint::from(r.next() | 1 << 63) * BigUint::from(r.next() | 1) * if r.below(2) == 0 { BigUint::one() } else { BigUint::from(r.next()) },
+                        _ => BigUint::from(if r.below(10) < 7 { 3 } else { 1 + r.below(4) }),
+                    }
+                };
+                // read from the top of the expansion
+                let pattern: Vec<char> = match shape {
+                    0 | 1 => "hsshM".chars().collect(),
+                    2 => "HssHM".chars().collect(),
+                    3 => "hssh".chars().collect(), // the multi-word quotient comes from the tail gap
+                    4 => "hshM".chars().collect(),
+                    5 => "WssWM".chars().collect(),
+                    6 => "hssshM".chars().collect(),
+                    _ => (0..2 + r.below(6)).map(|_| ['H', 'h', 'W', 'M', 's', 's'][r.below(6) as usize]).collect(),
+                };
+                let pattern: Vec<char> = std::iter::repeat('s').take(pre).chain(pattern.into_iter()).collect();
+                for kind in pattern.iter().rev() {
+                    let k = quot(&mut r, *kind);
+                    let np = &k * &p + &q;
+                    q = p;
+                    p = np;
+                }
+                GcdCase { a: mk_int(false, Nat::from_big(&p)), b: mk_int(false, Nat::from_big(&q)), class: 0 }
+            })
+        },
+        |c: &GcdCase, _ctx: &Ctx| {
+            let mut out = Out::new();
+            let (ua, ub) = (c.a.mag.ubig(), c.b.mag.ubig());
+            let (nua, nub) = (c.a.mag.big(), c.b.mag.big());
+            out.nontrivial(true);
+            out.label("lehmer:double-word guess, chosen partial quotients");
+            let g = ngcd(&nua, &nub);
+            match catch(|| ((&ua).gcd(&ub), (&ua).gcd_ext(&ub), (&ub).gcd_ext(&ua))) {
+                Err(m) => out.fail(format!("UBig gcd / gcd_ext panicked: {}", normalise(&m))),
+                Ok((g1, (g2, s, t), (g3, s3, t3))) => {
+                    out.check(u2n(&g1) == g, || format!("UBig::gcd: got {}, want {}", show_u(&u2n(&g1)), show_u(&g)));
+                    let gi = BigInt::from(g.clone());
+                    let lhs = i2n(&s) * BigInt::from(nua.clone()) + i2n(&t) * BigInt::from(nub.clone());
+                    out.check(u2n(&g2) == g && lhs == gi, || format!("UBig::gcd_ext(a, b): g = {} and s·a + t·b = {}, want {}", show_u(&u2n(&g2)), show_i(&lhs), show_u(&g)));
+                    let lhs3 = i2n(&s3) * BigInt::from(nub.clone()) + i2n(&t3) * BigInt::from(nua.clone());
+                    out.check(u2n(&g3) == g && lhs3 == gi, || format!("UBig::gcd_ext(b, a): g = {} and s·b + t·a = {}, want {}", show_u(&u2n(&g3)), show_i(&lhs3), show_u(&g)));
+                }
+            }
+            out
+        },
     );
     ck.sub("gcd_prim", (12_000, 360_000), prim_gcd_case, prim_gcd);
 
